@@ -57,6 +57,10 @@ func Generate(profile string, seed uint64, tier string) (*Scenario, error) {
 		}
 		sc.Datasets = c.Datasets
 		sc.Ops = g.GenStoreHistory(c)
+		if g.P(0.35) {
+			// the hub also has a proxy or a virtual dataset: nothing is stored in it, and a query scoped to it finds nothing
+			sc.Datasets = append(append([]string{}, c.Datasets...), g.Pick([]string{"proxyP", "virtV"}))
+		}
 	case "C06":
 		sc.Property = "C06"
 		c := g.baseStoreCfg(tier)
